@@ -19,7 +19,7 @@ PROPS = {}
 PROPS["C14"] = dict(
     level="proof",
     technique="Lean 4 theorems (induction on the group list / strong induction on n) about a model of the VarInt encoder and two-phase decoder; model tied to code by exhaustive (<=2 bytes; <=3 bytes thorough) and boundary differential testing",
-    level_text="C14_dec_iff proves for every byte string and every natural that the decoder model accepts exactly `leb128 n ++ rest` with n < 2^64 (bijection, minimality, overflow, truncation, no over-read are corollaries); the encoder-as-written is proved equal to LEB128 with exact length. The model is the Rust control flow (collect/reverse/accumulate with the leading_zeros guard) and is compared with the real decoder on every string of <= 2 bytes (<= 3 in thorough), the 9/10/11-byte boundary families and random inputs.",
+    level_text="C14_dec_iff proves for every byte string and every natural that the decoder model accepts exactly `leb128 n ++ rest` with n < 2^64 (bijection, minimality, overflow, truncation, no over-read are corollaries); the encoder-as-written is proved equal to LEB128 with exact length. The model is the Rust control flow (collect/reverse/accumulate with the leading_zeros guard) and is compared with the real decoder on every string of <= 2 bytes (<= 3 in thorough), the 9/10/11-byte boundary families and random inputs. Session 4: C14_leb128_value, C14_shortest, C14_leb128_injective (the unique shortest string of a value), C14_spec_accept_iff, direct rejection theorems (C14_rejects_zero_group, _padded, _ge_2_64, _unterminated) and an error-kind / reader-position model varintE with C14_varintE_cases; all 16.8 M three-byte strings are compared with a positional reading in the quick tier.",
     level_note="Trusted: Lean kernel; the hand-written model's correspondence to encode.rs:319-384 is established by differential testing (exhaustive on short strings), not by proof; io::Cursor/Read semantics of std.",
     design_ref="DESIGN.md §6 C14",
     rule="cases: exhaustive short strings, boundary families, encodings of boundary-biased u64 with suffix/truncation/non-minimal variants, random continuation-heavy strings.",
@@ -30,7 +30,7 @@ PROPS["C14"] = dict(
 PROPS["C20"] = dict(
     level="proof",
     technique="model generated from source by the translator (tag tables of network.rs / address.rs); Lean `decide +kernel` over the whole finite domain (3x3 pairs, all 256 bytes) lifted to arbitrary blobs; exhaustive differential check",
-    level_text="The model IS the tables regenerated from src/network.rs and src/util/address.rs on every run; C20_table/_injective/_network_inverse/_reject_others/_type_lookup/_cross_network are proved against Monero's literal table (Spec.tag) by kernel evaluation over every (network, type) pair and every byte value and lifted to blobs of any length. A one-sided or two-sided edit of any table entry changes Gen and makes `decide` fail. C20_type_total: the type lookup equals ONE by-the-book function (Spec.addrType) on every blob; C20_decode_encode / C20_encode_decode / C20_tables_agree tie the three generated tables to each other; C20_rows_wf: the payment-id slice of every row is in range. In addition the real functions are compared with model and spec on the complete domain (61 708 cases) plus ~3 900 payload-variation / payment-id / interleaved cases, and checked in Rust against the book's literal table on every (network, first byte) with zero / all-equal / random payloads (~20 000 direct checks).",
+    level_text="The model IS the tables regenerated from src/network.rs and src/util/address.rs on every run; C20_table/_injective/_network_inverse/_reject_others/_type_lookup/_cross_network are proved against Monero's literal table (Spec.tag) by kernel evaluation over every (network, type) pair and every byte value and lifted to blobs of any length. A one-sided or two-sided edit of any table entry changes Gen and makes `decide` fail. C20_type_total: the type lookup equals ONE by-the-book function (Spec.addrType) on every blob; C20_decode_encode / C20_encode_decode / C20_tables_agree tie the three generated tables to each other; C20_rows_wf: the payment-id slice of every row is in range. In addition the real functions are compared with model and spec on the complete domain (61 708 cases) plus ~3 900 payload-variation / payment-id / interleaved cases, and checked in Rust against the book's literal table on every (network, first byte) with zero / all-equal / random payloads (~20 000 direct checks). Session 4: C20_type_total (model = by-the-book Spec.addrType on every blob), C20_decode_encode, C20_encode_decode, C20_tables_agree; ~20 000 direct checks against Monero's literal table in the harness itself, call sequences from_u8 -> from_slice.",
     level_note="Trusted: Lean kernel; the translator's reading of the match arms (cross-checked by the exhaustive differential run); Spec.tag is my transcription of cryptonote_config.h.",
     design_ref="DESIGN.md §6 C20",
     rule="exhaustive enumeration of the finite domain.",
@@ -41,7 +41,7 @@ PROPS["C20"] = dict(
 PROPS["C18"] = dict(
     level="proof",
     technique="delegation structure generated from amount.rs (which std method each checked_*/operator/assign calls) over Lean models of the std integer methods; theorems on Int for all operands in range; complete boundary-grid differential check",
-    level_text="C18_checked_unsigned_iff / C18_checked_signed_iff prove, for all operands in u64 / i64, that each checked operation of the regenerated model returns r iff r is the exact integer result, representable, with non-zero divisor (signed rem: at every pair except (MIN,-1), where C18_rem_min_neg1 proves the deviation - a recorded known finding); operators panic iff checked is None, assign = operator, conversions and positive_sub exact. Binding a method to wrapping_*/saturating_* or an operator to the wrong checked method is representable in Gen and refutes the theorems.",
+    level_text="C18_checked_unsigned_iff / C18_checked_signed_iff prove, for all operands in u64 / i64, that each checked operation of the regenerated model returns r iff r is the exact integer result, representable, with non-zero divisor (signed rem: at every pair except (MIN,-1), where C18_rem_min_neg1 proves the deviation - a recorded known finding); operators panic iff checked is None, assign = operator, conversions and positive_sub exact. Binding a method to wrapping_*/saturating_* or an operator to the wrong checked method is representable in Gen and refutes the theorems. Session 4: C18_checked_signed_total, C18_checked_eq / C18_checked_none_iff (closed forms), C18_operator_exact, C18_assign_exact, C18_never_wraps, C18_exact_div_rem(_unique); compiler-inserted overflow panics are told apart from the library's own expect, so a plain operator is reported in the harness profile too.",
     level_note="Trusted: Lean kernel; models of std's checked_* semantics (StdInt.lean) validated on the boundary grid; translator's recognition of `self.0.m(rhs.0).map(T)`, `self.checked_m(rhs).expect(..)`, `*self = *self op other`; to_signed/to_unsigned/positive_sub hand-modelled with a reviewed-shape check.",
     design_ref="DESIGN.md §6 C18",
     rule="complete grid over ~50 boundary values per type x 5 ops x {checked, operator, assign}, conversions, positive_sub, random near-boundary pairs.",
@@ -79,7 +79,7 @@ PROPS["C02"] = dict(
 PROPS["C06"] = dict(
     level="proof",
     technique="Lean 4 loop-invariant proof: the imperative in-place array tree hash (model of tree_hash_cnt/tree_hash with every assert and index checked) equals the recursive CryptoNote definition for every hash function and every n <= 2^28; blob/id formulas by unfolding; differential check for every n in an initial segment and around powers of two",
-    level_text="C06_tree_eq_spec proves, for every H, root and list of extra hashes with count <= 2^28, that the model of the Rust loops (doubling loop with both asserts, first in-place pairing loop, assert_eq, halving loops, final combine; none = panic) returns exactly the recursive CryptoNote tree hash; C06_cnt characterises tree_hash_cnt; C06_blob / C06_id / C06_exception give the PoW blob, the id and the block-202612 substitution. The model instantiated with the reference Keccak reproduces the library's tree_hash for every n <= 300 (1100 thorough) and 2^k-2..2^k+2, and tx_root / hashable blob / id of generated blocks and of block 202612.",
+    level_text="C06_tree_eq_spec proves, for every H, root and list of extra hashes with count <= 2^28, that the model of the Rust loops (doubling loop with both asserts, first in-place pairing loop, assert_eq, halving loops, final combine; none = panic) returns exactly the recursive CryptoNote tree hash; C06_cnt characterises tree_hash_cnt; C06_blob / C06_id / C06_exception give the PoW blob, the id and the block-202612 substitution. The model instantiated with the reference Keccak reproduces the library's tree_hash for every n <= 300 (1100 thorough) and 2^k-2..2^k+2, and tx_root / hashable blob / id of generated blocks and of block 202612. Session 4: C06_consts / C06_id_gen (the 202612 constants of the current source are the ones the theorems use), C06_parsed_block and C06_described_block (for every block, no size hypothesis), C06_tree_defined_iff (the model panics exactly above 2^28 leaves); Monero's 16 tree-hash vectors and an accepted PoW blob as known answers.",
     level_note="Trusted: Lean kernel; model/Rust correspondence of the loops is differential; Keccak-256 itself is tiny-keccak (C17); the header bytes and miner-tx hash fed to the Lean side come from the library (the Block codec model is C01/C02's, the tx id is C05's).",
     design_ref="DESIGN.md §6 C06",
     rule="every leaf count n in 1..=300 (quick) / 1..=1100 (thorough), 2^k-2..2^k+2 for k <= 12 / 16, generated blocks with hash counts around powers of two, block 202612.",
@@ -90,7 +90,7 @@ PROPS["C06"] = dict(
 PROPS["C03"] = dict(
     level="proof",
     technique="Lean 4 theorems relating the codec model to an independent by-the-book layout spec (Spec/Wire.lean: flat concatenations from Monero's headers) over abstract descriptions; three-way differential check lib bytes vs spec bytes vs model bytes on descriptions printed from the public struct fields",
-    level_text="C03_enc_eq_spec proves for EVERY description (both versions, coinbase/key inputs, plain/tagged outputs, any counts and ring size, all seven RingCT types, arbitrary contents) that the model encoder applied to the Rust-shaped value equals the spec bytes; C03_dec_spec that parsing the spec bytes yields exactly that value (on wfTx of C02); same for blocks. Spec/Wire mentions neither the model nor Gen, so a symmetric edit of the library (tag, count width, field order, matrix dimension on both sides) keeps C01/C02 true and breaks this check. The real serialiser is compared byte-for-byte with the spec on ~800 (quick) / ~7000 (thorough) descriptions.",
+    level_text="C03_enc_eq_spec proves for EVERY description (both versions, coinbase/key inputs, plain/tagged outputs, any counts and ring size, all seven RingCT types, arbitrary contents) that the model encoder applied to the Rust-shaped value equals the spec bytes; C03_dec_spec that parsing the spec bytes yields exactly that value (on wfTx of C02); same for blocks. Spec/Wire mentions neither the model nor Gen, so a symmetric edit of the library (tag, count width, field order, matrix dimension on both sides) keeps C01/C02 true and breaks this check. The real serialiser is compared byte-for-byte with the spec on ~800 (quick) / ~7000 (thorough) descriptions. Session 4: C03_deserialize_spec / C03_block_dec_spec_desc (strict parse of the spec bytes; blocks at description level), C03_field_orders_are_monero and C03_spec_follows_field_orders over the generated Gen/Fields.lean (a symmetric reorder of a macro field list breaks a theorem), C03_rct_branching_complete (every generated table is read by a theorem), C03_bpp_count_is_one_byte (the recorded deviation as a theorem); 19 mainnet transactions and 3 blocks from the crate's own tests are compared three-way with their original hex.",
     level_note=_CODEC_NOTE + " Spec/Wire.lean is my transcription of cryptonote_basic.h / rctTypes.h (no reference implementation is available offline); cross-checked against the mainnet vectors in the suite through the model. Known finding: BulletproofPlus count 128..255 (one raw byte vs Monero's varint).",
     design_ref="DESIGN.md §6 C03, Appendix A",
     rule="type-directed descriptions cycling through all 7 RingCT types, both versions, coinbase and key inputs, ring sizes 1..20, 0..20 inputs/outputs (some with hundreds of outputs), blocks with 0..hundreds of hashes.",
@@ -102,7 +102,7 @@ PROPS["C03"] = dict(
 PROPS["C05"] = dict(
     level="proof",
     technique="Lean 4 theorems: for a strictly parsed transaction the model of Transaction::hash equals the Monero three-hash formula over byte ranges of the received bytes (consequence of C01 soundness + a lemma on the decoder's output shape), H abstract; differential ids with the reference Keccak",
-    level_text="C05_prefix_hash, C05_id_v1, C05_id_rct prove (for any hash function H, any byte string b that parses strictly, any RingCT type) prefix_hash = H(b[0..p]) and id = H(b) for v1, id = H(H(b[0..p]) ‖ H(b[p..q]) ‖ (Null ? 0^32 : H(b[q..]))) otherwise, with p, q the format's boundaries; parsed_shape shows the hard-coded 'empty prunable' constant (regenerated from source) is unreachable for parsed transactions. The library's ids are compared with model and formula (reference Keccak) on generated transactions of every type and on mutated encodings that still parse.",
+    level_text="C05_prefix_hash, C05_id_v1, C05_id_rct prove (for any hash function H, any byte string b that parses strictly, any RingCT type) prefix_hash = H(b[0..p]) and id = H(b) for v1, id = H(H(b[0..p]) ‖ H(b[p..q]) ‖ (Null ? 0^32 : H(b[q..]))) otherwise, with p, q the format's boundaries; parsed_shape shows the hard-coded 'empty prunable' constant (regenerated from source) is unreachable for parsed transactions. The library's ids are compared with model and formula (reference Keccak) on generated transactions of every type and on mutated encodings that still parse. Session 4: C05_id_eq_spec / C05_id_spec_bytes tie the identifier and its boundaries p, q to the independent spec (Spec/Wire), C05_*_embedded cover non-strict parses (the miner transaction inside a block), and the spec side of the correspondence takes its boundaries from an independent by-the-book skipper (Spec/TxSkip.lean), not from the model's parse.",
     level_note=_CODEC_NOTE + " Keccak-256 = tiny-keccak is C17's subject; ids are compared using the Lean reference Keccak. Excluded point (version != 1, no inputs: no RingCT type exists) is stated (C05_no_inputs) and recorded in DESIGN.md §8.",
     design_ref="DESIGN.md §6 C05",
     rule="generated transactions (all types, both versions) and their mutations that still parse.",
@@ -113,7 +113,7 @@ PROPS["C05"] = dict(
 PROPS["C12"] = dict(
     level="proof",
     technique="Lean 4 theorems about a model of Address::{from_bytes, as_bytes, Display, FromStr, hex, consensus} over generated tag tables, for every checksum function H and key-validity predicate; full proof that Monero base58 (model of the crate's control flow = reference) is a bijection between byte strings and accepted texts; differential check incl. every single-field corruption",
-    level_text="C12_bytes_iff: from_bytes b = some a <-> WF a and as_bytes a = b (canonical blob, exact lengths 69/77); C12_b58_dec_enc / C12_b58_enc_dec: base58 decode/encode are mutually inverse and only canonical text is accepted; C12_str_roundtrip / C12_str_canonical, consensus and hex forms, and each rejection class (unknown tag, checksum, invalid key, short, trailing) as corollaries; C12_parse_is_monero: the model parser equals the hand-written spec parser on every input. C12_hex_is_spec / C12_consensus_is_spec / C12_parse_hex_is_monero / C12_parse_consensus_is_monero: the hex and consensus forms equal the by-the-book forms on every input; C12_*_ed25519: the same statements instantiated with H = Keccak-256 and the model of PublicKey::from_slice (non-canonical / undecodable / negative-zero keys rejected); C12_text_length (95/106); C12_known_answer_*: two address strings from outside the project reproduced in the kernel. Real code vs model (key test = model of from_slice) vs spec (key test = RFC 8032 decoder) on ~15k (quick) cases incl. all 256 tag values, corrupted keys/checksums, truncations, extensions, alphabet/non-alphabet strings, overflowing blocks.",
+    level_text="C12_bytes_iff: from_bytes b = some a <-> WF a and as_bytes a = b (canonical blob, exact lengths 69/77); C12_b58_dec_enc / C12_b58_enc_dec: base58 decode/encode are mutually inverse and only canonical text is accepted; C12_str_roundtrip / C12_str_canonical, consensus and hex forms, and each rejection class (unknown tag, checksum, invalid key, short, trailing) as corollaries; C12_parse_is_monero: the model parser equals the hand-written spec parser on every input. C12_hex_is_spec / C12_consensus_is_spec / C12_parse_hex_is_monero / C12_parse_consensus_is_monero: the hex and consensus forms equal the by-the-book forms on every input; C12_*_ed25519: the same statements instantiated with H = Keccak-256 and the model of PublicKey::from_slice (non-canonical / undecodable / negative-zero keys rejected); C12_text_length (95/106); C12_known_answer_*: two address strings from outside the project reproduced in the kernel. Real code vs model (key test = model of from_slice) vs spec (key test = RFC 8032 decoder) on ~15k (quick) cases incl. all 256 tag values, corrupted keys/checksums, truncations, extensions, alphabet/non-alphabet strings, overflowing blocks. Session 4: C12_hex_is_spec, C12_consensus_is_spec, C12_parse_hex_is_monero, C12_parse_consensus_is_monero, nine *_ed25519 instantiations with Keccak and the model of PublicKey::from_slice, two published addresses as kernel-evaluated known answers.",
     level_note="Trusted: Lean kernel; model of base58-monero 2.1.0 and hex 0.4.3 control flow tied to the crates differentially; H = Keccak (C17) and key validity (C13) are parameters of the general theorems (instantiated in the *_ed25519 theorems) and reference implementations in the driver. The pinned tree accepted trailing bytes: repaired by the fix commit recorded in known_findings.json.",
     design_ref="DESIGN.md §6 C12",
     rule="3 networks x 3 types x random valid keys / payment ids both directions; every single-field corruption of ~50 addresses; random and adversarial base58 / hex strings.",
@@ -124,7 +124,7 @@ PROPS["C12"] = dict(
 PROPS["C15"] = dict(
     level="proof",
     technique="Lean 4 theorems: byte-level model of parse_signed_to_piconero / from_str_in / fmt_piconero_in (denomination tables generated from source) proved equal to an exact-decimal spec for every byte string and denomination; round-trip theorems; grammar-directed + junk differential check",
-    level_text="C15_parse_iff: for every byte string, denomination and signedness the model parser returns r iff the exact-decimal spec does (grammar -?D*(.D*)?, at most `decimals` fraction digits, <= 50 bytes, |r| <= 2^63-1, unsigned refuses '-'); C15_never_wraps / C15_overflow_iff: no intermediate wrap; C15_fmt_exact: exact expansion with the fixed number of decimals incl. i64::MIN; C15_parse_fmt(_suffix): parse(format a) = a with and without suffix; C15_precision_table ties everything to the regenerated precision table. Real code vs model vs spec on ~360k (quick) operations.",
+    level_text="C15_parse_iff: for every byte string, denomination and signedness the model parser returns r iff the exact-decimal spec does (grammar -?D*(.D*)?, at most `decimals` fraction digits, <= 50 bytes, |r| <= 2^63-1, unsigned refuses '-'); C15_never_wraps / C15_overflow_iff: no intermediate wrap; C15_fmt_exact: exact expansion with the fixed number of decimals incl. i64::MIN; C15_parse_fmt(_suffix): parse(format a) = a with and without suffix; C15_precision_table ties everything to the regenerated precision table. Real code vs model vs spec on ~360k (quick) operations. Session 4: C15_parse_fmt_iff, C15_parse_fmt_out_of_range, C15_display_roundtrip, C15_fmt_injective, and C15_parser_constants / C15_checked_steps (the 50-byte cap, the three checked arithmetic sites and both from_str_in shapes are regenerated from the source).",
     level_note="Trusted: Lean kernel; model/Rust correspondence differential; Rust's u64 Display assumed canonical decimal (validated by the format ops); chars()-vs-bytes argument for valid UTF-8 documented in Model/AmountText.lean. Reading decisions (\".\" = 0, \"-0\" negative for unsigned) in DESIGN.md §8.",
     design_ref="DESIGN.md §6 C15",
     rule="grammar-directed literals (digit counts 0..50, point at every position, magnitudes around 2^63/2^64, 12/13 decimals, signs) + junk stream (other ASCII, multi-byte UTF-8, two dots, inner signs, spaces) x 5 denominations x {unsigned, signed}; formatting on boundary and random values.",
@@ -146,7 +146,7 @@ PROPS["C16"] = dict(
 PROPS["C17"] = dict(
     level="other",
     technique="conformance of a dependency to a standard: Lean reference Keccak-256 (total, executable) vs tiny-keccak on every length 0..1100 + long messages; Lean theorems for what is monero-rs logic: hash-to-scalar = LE(digest) mod l, padding length/shape, sponge block structure; published KATs by kernel evaluation (labelled tests)",
-    level_text="PARTIAL by nature: keccak_256 is a six-line wrapper around tiny-keccak, so that the dependency *is* Keccak-f[1600] for all inputs cannot be proved here. Proved: C17_hs / C17_hash_to_scalar (result < l, = little-endian value mod l, identity below l, 32-byte encoding), C17_hs_spec (= an independently written reduction), C17_pad_len / C17_pad_shape (original 0x01..0x80 padding, rate 136), C17_absorb_blocks (the sponge absorbs exactly |pad m|/136 blocks); C17_kats_* check published vectors in the kernel (tests, not the unbounded claim). Decided by conformance: library hash = Lean reference Keccak for every length 0..=1100 (seed-derived content), block-boundary lengths and 200 (quick) / 20 000 (thorough) longer messages; hash-to-scalar on random digests and digests >= l, 2l, 2^256-1.",
+    level_text="PARTIAL by nature: keccak_256 is a six-line wrapper around tiny-keccak, so that the dependency *is* Keccak-f[1600] for all inputs cannot be proved here. Proved: C17_hs / C17_hash_to_scalar (result < l, = little-endian value mod l, identity below l, 32-byte encoding), C17_hs_spec (= an independently written reduction), C17_pad_len / C17_pad_shape (original 0x01..0x80 padding, rate 136), C17_absorb_blocks (the sponge absorbs exactly |pad m|/136 blocks); C17_kats_* check published vectors in the kernel (tests, not the unbounded claim). Decided by conformance: library hash = Lean reference Keccak for every length 0..=1100 (seed-derived content), block-boundary lengths and 200 (quick) / 20 000 (thorough) longer messages; hash-to-scalar on random digests and digests >= l, 2l, 2^256-1. Session 4: C17_state_size (the state stays 25 lanes: no totalised accessor falls back), C17_tables_generated (round constants, rho and pi offsets from the specification's rules), C17_keccak_sponge, C17_pad_injective, a NIST two-block vector, C17_hashable_hash_to_scalar; a table-free Rust Keccak written from the specification is a second oracle; messages up to 1 MiB.",
     level_note="Trusted: Lean kernel and the compiled reference Keccak (validated against published vectors in the kernel); tiny-keccak is modelled, not verified. What the model cannot exhibit: a divergence of tiny-keccak from Keccak-f on an untested input.",
     design_ref="DESIGN.md §6 C17",
     rule="every message length 0..=1100, lengths around 136*k, longer random messages; digests incl. values >= l and 2^256-1.",
@@ -157,7 +157,7 @@ PROPS["C17"] = dict(
 PROPS["C13"] = dict(
     level="proof",
     technique="Lean 4 theorems about a model of PrivateKey::from_slice / PublicKey::from_slice (dalek's permissive decompress mirrored incl. sqrt_ratio_i, then recompress-and-compare) over ZMod p with a machine-checked primality certificate of p (Pratt/Lucas) and the p = 5 mod 8 square-root argument; group arithmetic: dalek vs a Lean reference curve that is PROVED to be the group law of the curve (Proofs/EdwardsGroup, EdwardsRef, EdwardsLawful)",
-    level_text="C13_secret_iff: accepted <-> 32 bytes and LE value < l. C13_public_iff (sound + complete): accepted <-> canonical encoding of a point on the curve (y < p, x recoverable with the encoded sign, no negative zero); completeness uses Nat.Prime p proved from a generated Pratt certificate. C13_public_eq_reference: the model accepts exactly what RFC 8032 strict decoding accepts, for every byte string. C13_rejects_noncanonical_y (all y in [p, 2^255)), C13_rejects_negative_zero, C13_bytes_roundtrip (binary, hex, consensus). Key ARITHMETIC (from_private_key, +, -, *) delegates to curve25519-dalek and is compared on every run with the Lean reference curve on random and special operands (identity, small-order points, l-1, P+(-P)); C13_curve_points_form_a_group / C13_group_law / C13_base_point_order / C13_encoding_bijective prove that this reference is the abelian group of curve points (complete Edwards addition law), with base point of order exactly l and a bijective encoding. The text, Display and consensus forms have an independent spec side (accepted iff RFC 8032 / < l).",
+    level_text="C13_secret_iff: accepted <-> 32 bytes and LE value < l. C13_public_iff (sound + complete): accepted <-> canonical encoding of a point on the curve (y < p, x recoverable with the encoded sign, no negative zero); completeness uses Nat.Prime p proved from a generated Pratt certificate. C13_public_eq_reference: the model accepts exactly what RFC 8032 strict decoding accepts, for every byte string. C13_rejects_noncanonical_y (all y in [p, 2^255)), C13_rejects_negative_zero, C13_bytes_roundtrip (binary, hex, consensus). Key ARITHMETIC (from_private_key, +, -, *) delegates to curve25519-dalek and is compared on every run with the Lean reference curve on random and special operands (identity, small-order points, l-1, P+(-P)); C13_curve_points_form_a_group / C13_group_law / C13_base_point_order / C13_encoding_bijective prove that this reference is the abelian group of curve points (complete Edwards addition law), with base point of order exactly l and a bijective encoding. The text, Display and consensus forms have an independent spec side (accepted iff RFC 8032 / < l). Session 4: the operators are modelled on the stored key bytes (Model/KeyOps.lean: point(), +, -, *, from_private_key, scalar arithmetic) with C13_{add,sub,smul,pub_of}_bytes, C13_operators_no_panic, C13_scalar_ops, the identities of the statement (C13_pub_add, C13_smul_smul, C13_add_sub and their byte-level forms), the curve constants pinned (C13_d_is_ed25519, C13_G_is_ed25519) and C13_rejects_negative_zero_bytes.",
     level_note="Trusted: Lean kernel (+ Mathlib for ZMod / lucas_primality); model/Rust correspondence of acceptance differential (incl. all 38 non-canonical-y encodings, both negative-zero encodings, the 8 small-order points); dalek's field/point arithmetic is a dependency: modelled by Ref/Ed25519.lean (proved to be the Edwards group law) and tied to it differentially.",
     design_ref="DESIGN.md §6 C13",
     rule="random 32-byte strings, all non-canonical-y and negative-zero encodings, small-order points and sign flips, random valid points / invalid y, boundary scalars; arithmetic on random and special operands.",
@@ -210,7 +210,7 @@ PROPS["C11"] = dict(
 PROPS["C07"] = dict(
     level="proof",
     technique="Lean 4 theorems about a model of check_outputs_with (iterator pipeline, SubKeyChecker table as insert list, view tags, additional keys) in an arbitrary lawful group: exact characterisation of the reported set (sound + complete), sender outputs recognised, position enters only through its varint; scenario-based three-way check with an independent sender",
-    level_text="C07_sound / C07_complete / C07_reported_iff: position i is reported, with key K and index idx, iff K is the main key or (when the main key addresses nothing there) the additional key at position i, the view tag matches when present, and P_i = Hs(enc(8•(v•K)) ‖ varint i)•G + subSpendPub idx for an in-range idx (last-insert-wins on equal spend keys); C07_sender_recognised / C07_sender_reported: outputs built by the by-the-book sender for the primary address or an in-range subaddress (main-key or per-output key, tagged or not, any position, tx key with added 8-torsion) are reported; C07_position_encoding; C07_errors; C07_apis_agree. Scenarios (wallet, ranges, per-output assignment primary/subaddress in or out of range/foreign/garbage, derivation, tag right/wrong/absent, version, RingCT type, positions beyond 128 and 16384) are built independently by the harness (dalek sender) and by the Lean spec; library scan = model = expected set.",
+    level_text="C07_sound / C07_complete / C07_reported_iff: position i is reported, with key K and index idx, iff K is the main key or (when the main key addresses nothing there) the additional key at position i, the view tag matches when present, and P_i = Hs(enc(8•(v•K)) ‖ varint i)•G + subSpendPub idx for an in-range idx (last-insert-wins on equal spend keys); C07_sender_recognised / C07_sender_reported: outputs built by the by-the-book sender for the primary address or an in-range subaddress (main-key or per-output key, tagged or not, any position, tx key with added 8-torsion) are reported; C07_position_encoding; C07_errors; C07_apis_agree. Scenarios (wallet, ranges, per-output assignment primary/subaddress in or out of range/foreign/garbage, derivation, tag right/wrong/absent, version, RingCT type, positions beyond 128 and 16384) are built independently by the harness (dalek sender) and by the Lean spec; library scan = model = expected set. Session 4: the negative clauses are theorems (C07_wrong_tag_not_reported unconditional, C07_out_of_range_not_reported, C07_not_addressed_not_reported), C07_index_exact, C07_sender_tx_reported (sender's extra bytes composed with the scan), C07_check_* for SubKeyChecker::check.",
     level_note=_CRYPTO_NOTE + " That a foreign key does not satisfy the equation by accident is cryptographic (sampled, not proved); the theorem is an exact characterisation so it needs no such assumption.",
     design_ref="DESIGN.md §6 C07",
     rule="~40 (quick) / ~400 (thorough) scenarios; positions cross 128 and 16384 via filler outputs around real ones; missing/duplicate tx key fields, short additional-key lists, wrong tags/positions, out-of-range subaddresses, torsioned keys.",
@@ -221,7 +221,7 @@ PROPS["C07"] = dict(
 PROPS["C08"] = dict(
     level="proof",
     technique="Lean 4 theorems: legacy and compact ecdh decode invert the by-the-book Monero sender encode for every amount < 2^64, mask and shared secret; any reported opening opens the on-chain commitment (for arbitrary, incl. corrupted, fields); clear amounts; differential check with an independent dalek encoder",
-    level_text="C08_legacy_roundtrip / C08_compact_roundtrip / C08_sender_roundtrip: decoding the sender's encoding returns exactly (a, y) resp. (a, derived mask) and passes the commitment check; C08_opening_sound: for ARBITRARY ecdh/commitment bytes a reported opening (a', y', C') satisfies y'•G + a'•H = C' = the decoded on-chain commitment, otherwise the scan errs (no third case, via C07_errors); C08_clear_amounts (v1 / coinbase / Null: a > 0 ↦ a, 0 ↦ unknown). The legacy theorem holds for the code after the fix commit (the pinned tree hashed the unreduced digest).",
+    level_text="C08_legacy_roundtrip / C08_compact_roundtrip / C08_sender_roundtrip: decoding the sender's encoding returns exactly (a, y) resp. (a, derived mask) and passes the commitment check; C08_opening_sound: for ARBITRARY ecdh/commitment bytes a reported opening (a', y', C') satisfies y'•G + a'•H = C' = the decoded on-chain commitment, otherwise the scan errs (no third case, via C07_errors); C08_clear_amounts (v1 / coinbase / Null: a > 0 ↦ a, 0 ↦ unknown). The legacy theorem holds for the code after the fix commit (the pinned tree hashed the unreduced digest). Session 4: C08_scan_reports_sender_amount (end to end through the scan), C08_opening_sound_with (any checker, amount < 2^64), C08_open_commitment_sound, C08_H_is_monero / C08_H_decodes, and *_ed25519_permissive instances over a proved model of dalek's permissive point decoding (no decP / l / Keccak hypothesis left).",
     level_note=_CRYPTO_NOTE,
     design_ref="DESIGN.md §6 C08, §7 item 2",
     rule="(amount, mask, secret) triples x 2 encodings incl. 0, 2^64-1 and every power of two ±1; corrupted ecdh / commitments (bit flips, non-canonical encodings); v1 / coinbase clear amounts.",
@@ -232,7 +232,7 @@ PROPS["C08"] = dict(
 PROPS["C19"] = dict(
     level="other",
     technique="Lean 4 theorems fromJson (toJson x) = some x on a model of the serde data model as configured in /repo (shapes determined from real serde_json output) for every public type, amount helpers via C15 and address via C12 theorems; JSON text of the model compared with serde_json's on the same values, and deserialisers on reordered / malformed documents",
-    level_text="PARTIAL by nature: serde_derive's expansion and serde_json's printer/parser are trusted, not modelled. Proved on the model: C19_roundtrip_<T> for 26 types from Key/Hash/VarInt up to Transaction and Block (under explicit wf predicates), C19_amount_pico (every u64/i64), C19_amount_xmr (exact decimal string of C15, round-trips iff magnitude <= 2^63-1; C19_amount_xmr_refused above), option and sequence variants, C19_address_json / C19_invalid_address_refused (via C12). Decided by conformance: the model's compact JSON text equals serde_json::to_string on the same values (all RingCT types, both versions), read-back equality, and deserialisers agree on reordered, escaped and malformed documents.",
+    level_text="PARTIAL by nature: serde_derive's expansion and serde_json's printer/parser are trusted, not modelled. Proved on the model: C19_roundtrip_<T> for 26 types from Key/Hash/VarInt up to Transaction and Block (under explicit wf predicates), C19_amount_pico (every u64/i64), C19_amount_xmr (exact decimal string of C15, round-trips iff magnitude <= 2^63-1; C19_amount_xmr_refused above), option and sequence variants, C19_address_json / C19_invalid_address_refused (via C12). Decided by conformance: the model's compact JSON text equals serde_json::to_string on the same values (all RingCT types, both versions), read-back equality, and deserialisers agree on reordered, escaped and malformed documents. Session 4: C19_roundtrip_wire* / _decoded* (every value decoded from the wire round-trips through JSON: the wf predicates are consequences of decoding), amount theorems against Spec.Decimal, a generated serde shape table Gen/JsonShapes.lean with C19_shape_* theorems, models of PublicKey / SubField / ExtraField, from_reader / from_value / from_slice entry points.",
     level_note="Trusted: serde_derive, serde_json, serde-big-array; Lean kernel for the model-level theorems; the feature gate is exercised because the harness always builds monero with `serde`. What the model cannot exhibit: a divergence between serde_json's printer and parser on trees the tests do not reach.",
     design_ref="DESIGN.md §6 C19",
     rule="values from the shared generators (transactions/blocks of all types), amounts on the u64/i64 boundary sets, addresses (3 networks x 3 types), Index, Hash; malformed / reordered JSON documents.",
@@ -243,7 +243,7 @@ PROPS["C19"] = dict(
 PROPS["C04"] = dict(
     level="proof",
     technique="Lean 4 theorems on the model (decoded vectors within the cap => tree-hash precondition for every parsed block; bounded VarInt reads; extra loop terminates; allocation-ledger bound closed under the decoder combinators and instantiated on the worst vector nesting) + isolated execution of every entry point (child process, catch_unwind, time limit, counting allocator) compared with the model's accept/reject",
-    level_text="PARTIAL. Proved on the model: C04_vec_cap (a capped vector decoder returns exactly n elements with n*size_of <= CAP), C04_treehash_pre / C04_parsed_block_root_no_panic (every parsed block lists <= 2^20 hashes, so tree_hash's asserts and indexings cannot fire: the model of tree_hash returns `some` = no panic), C04_varint_bounded (1..10 bytes), C04_extra_total (the extra loop terminates on every input), C04_alloc_bind / C04_alloc_vec (ledger bound peak <= A + B*bytes closed under sequencing and capped pre-allocating vectors), C04_alloc_bound_tx / C04_alloc_bound_block (instrumented decoders of the WHOLE transaction and block - with_capacity reservations after their cap check, push-grown vectors with growth factor 4 - compute exactly the model's result and keep peak <= 2*CAP + 88*|b| on success and failure), C04_alloc_released. All model decoders are total Lean functions (structural recursion or fuel proved sufficient). What the model cannot exhibit - panics inside dependencies (dalek, tiny-keccak, base58-monero, hex, fixed-hash, std formatting), stack exhaustion, allocator/OS behaviour, real time - is observed by running every entry point and every public operation on parsed values in a child process under catch_unwind, a 20 s limit and a counting allocator: outcome must equal the model's accept/reject (never PANIC/ABORT/TIMEOUT) and peak heap must stay <= 2*CAP + 4 MiB + 160*|input|.",
+    level_text="PARTIAL. Proved on the model: C04_vec_cap (a capped vector decoder returns exactly n elements with n*size_of <= CAP), C04_treehash_pre / C04_parsed_block_root_no_panic (every parsed block lists <= 2^20 hashes, so tree_hash's asserts and indexings cannot fire: the model of tree_hash returns `some` = no panic), C04_varint_bounded (1..10 bytes), C04_extra_total (the extra loop terminates on every input), C04_alloc_bind / C04_alloc_vec (ledger bound peak <= A + B*bytes closed under sequencing and capped pre-allocating vectors), C04_alloc_bound_tx / C04_alloc_bound_block (instrumented decoders of the WHOLE transaction and block - with_capacity reservations after their cap check, push-grown vectors with growth factor 4 - compute exactly the model's result and keep peak <= 2*CAP + 88*|b| on success and failure), C04_alloc_released. All model decoders are total Lean functions (structural recursion or fuel proved sufficient). What the model cannot exhibit - panics inside dependencies (dalek, tiny-keccak, base58-monero, hex, fixed-hash, std formatting), stack exhaustion, allocator/OS behaviour, real time - is observed by running every entry point and every public operation on parsed values in a child process under catch_unwind, a 20 s limit and a counting allocator: outcome must equal the model's accept/reject (never PANIC/ABORT/TIMEOUT) and peak heap must stay <= 2*CAP + 4 MiB + 160*|input|. Session 4: the data-dependent panic sites are EXPLICIT in Model/Panics.lean (slices, indices, str slices with char boundaries, machine-integer + and -) and proved unreachable for every input, the panic-explicit functions being proved equal to the total models: C04_no_panic_address(_type), _amount_parser, _fmt_piconero, _signed_to_string, _signed_from_str, _padding, _varint, _ring_size, _tx (whole transaction decoder), _prunable (public decoder, every usize argument — stating it exposed a genuine overflow panic, repaired by a fix commit), C04_raw_from_parsed_extra_no_panic.",
     level_note="Trusted: Lean kernel; model/Rust correspondence differential; the isolated runs sample the input space (valid, mutated, truncated at every position, declared-length attacks at every position and nested, random bytes, text inputs incl. invalid UTF-8 and 100 kB strings). Scanning time is linear in |major|x|minor| by the caller's choice of ranges; the harness uses small ranges.",
     design_ref="DESIGN.md §6 C04",
     rule="~10k (quick) / ~100k (thorough) isolated runs over 20 entry points; non-trivial = inputs that parse (all public operations are then run on the value).",
